@@ -51,7 +51,9 @@ func (db *DB) InsertRaw(stream string, ts time.Time, dims bytemap.ByteMap, vals 
 	if db.log.IsTraceEnabled() {
 		db.log.Tracef("Writing to wal with dims length %d: %v", len(dims), bytemap.ByteMap(dims).AsMap())
 	}
+	verifPoint(db, stream, "wal-write-before", nil)
 	err := w.Write(tsd, dimsLen, dims, valsLen, vals)
+	verifPoint(db, stream, "wal-write-after", nil)
 	if err != nil {
 		db.log.Error(err)
 	}
@@ -75,6 +77,7 @@ func (t *table) processWALInserts() {
 		if err != nil {
 			t.db.Panic(fmt.Errorf("Unable to read from WAL: %v", err))
 		}
+		verifPoint(t.db, t.Name, "wal-read", t.wal.Offset())
 		in <- &walRead{data, t.wal.Offset(), 0}
 	}
 }
@@ -105,6 +108,7 @@ loop:
 				t.skip(read.offset, read.source)
 				skipped++
 			}
+			verifPoint(t.db, t.Name, "entry-done", read.offset)
 			t.db.walBuffers.Put(read.data)
 			delta := time.Now().Sub(start)
 			if delta > 1*time.Minute {
